@@ -75,14 +75,21 @@ package bpmn
 //@   ensures [all-when-no-exclusion] len(exclusion) == 0 ==> len(result) == len(*sequenceFlows) && off(result) == 0 &&
 //@             forall a int :: 0 <= a && a < len(result) ==> at(result, a) == elemptr(*sequenceFlows, a)
 //@   ensures [fresh-result] fresh(base(result))
+//@   ensures [one-exclusion-is-asked-once-per-flow-and-exactly-the-flows-it-excludes-are-left-out] len(exclusion) == 1 ==>
+//@             ncalls(exclusion[0]) == old(ncalls(exclusion[0])) + len(*sequenceFlows) &&
+//@             len(result) == len(*sequenceFlows) - (ncallsTrue(exclusion[0]) - old(ncallsTrue(exclusion[0])))
 //@   loop 1 range *sequenceFlows
 //@     invariant len(exclusion) == 0 ==> len(result) == i && off(result) == 0 && forall a int :: 0 <= a && a < i ==> at(result, a) == elemptr(*sequenceFlows, a)
 //@     invariant fresh(base(result)) && off(result) == 0
 //@     invariant len(result) <= i
 //@     invariant len(exclusion) == 0 ==> evlen == old(evlen)
 //@     invariant preserved("elems([]*SequenceFlow)")
+//@     invariant len(exclusion) == 1 ==> ncalls(exclusion[0]) == old(ncalls(exclusion[0])) + i &&
+//@             len(result) == i - (ncallsTrue(exclusion[0]) - old(ncallsTrue(exclusion[0])))
 //@   loop 2 range exclusion
 //@     invariant len(exclusion) == 0 ==> evlen == old(evlen)
+//@     invariant len(exclusion) == 1 ==> ncalls(exclusion[0]) == old(ncalls(exclusion[0])) + i + rk2 &&
+//@             len(result) == i - (ncallsTrue(exclusion[0]) - old(ncallsTrue(exclusion[0])))
 
 // ---------------------------------------------------------------------------
 // sequence_flow.go: resolving an end of a sequence flow is exactly one lookup in the flow's process and nothing else.
@@ -793,6 +800,38 @@ package bpmn
 //@     invariant count(Trace, VisitTrace) == athead(1, count(Trace, VisitTrace)) + (flowed ? 1 : 0)
 //@     invariant forall b int :: off(flowHandlers) <= b && b < off(flowHandlers) + len(flowHandlers) ==>
 //@               fncode(at(flowHandlers, b)) == code("(*flow).handleAdditionalSequenceFlow$1")
+
+// ---------------------------------------------------------------------------
+// gateway_exclusive.go / gateway_inclusive.go: which flows a gateway probes. The filter handed to allSequenceFlows
+// leaves out the default flow and nothing else: a flow is excluded exactly when the gateway has a default flow and the
+// flow equals it (same element, same process) - wherever the default flow stands in the gateway's list.
+//@ func newExclusiveGateway$1
+//@   prop C04 C01
+//@   modifies nothing
+//@   flag emits none
+//@   ensures [exactly-the-default-flow-is-kept-out-of-the-probe] result == (defaultSequenceFlow != nil && *sequenceFlow == *defaultSequenceFlow)
+//@ func newInclusiveGateway$1
+//@   prop C05 C01
+//@   modifies nothing
+//@   flag emits none
+//@   ensures [exactly-the-default-flow-is-kept-out-of-the-probe] result == (defaultSequenceFlow != nil && *sequenceFlow == *defaultSequenceFlow)
+
+// The constructors: the probed list is what allSequenceFlows leaves of the node's outgoing flows when it asks this very
+// filter, once per outgoing flow (one flow fewer for every time the filter said "this is the default flow").
+//@ func newExclusiveGateway
+//@   prop C04 C01
+//@   requires wr != nil
+//@   ensures [the-probed-flows-are-the-outgoing-flows-the-default-filter-lets-through] err == nil ==> gw != nil && fresh(gw) && gw.wiring == wr &&
+//@             gw.element == element && gw.probing != nil &&
+//@             ncallsCode(code("newExclusiveGateway$1")) == old(ncallsCode(code("newExclusiveGateway$1"))) + len(wr.outgoing) &&
+//@             len(gw.nonDefaultSequenceFlows) == len(wr.outgoing) - (ncallsTrueCode(code("newExclusiveGateway$1")) - old(ncallsTrueCode(code("newExclusiveGateway$1"))))
+//@ func newInclusiveGateway
+//@   prop C05 C01
+//@   requires wr != nil
+//@   ensures [the-probed-flows-are-the-outgoing-flows-the-default-filter-lets-through] err == nil ==> gw != nil && fresh(gw) && gw.wiring == wr &&
+//@             gw.element == element &&
+//@             ncallsCode(code("newInclusiveGateway$1")) == old(ncallsCode(code("newInclusiveGateway$1"))) + len(wr.outgoing) &&
+//@             len(gw.nonDefaultSequenceFlows) == len(wr.outgoing) - (ncallsTrueCode(code("newInclusiveGateway$1")) - old(ncallsTrueCode(code("newInclusiveGateway$1"))))
 
 // ---------------------------------------------------------------------------
 // gateway_exclusive.go (C04): the probe protocol, step by step
